@@ -61,6 +61,7 @@ from vgi_rpc.rpc._common import (
     _record_input,
     _record_output,
 )
+from vgi_rpc.rpc._wire import _pending_log_metadata, _write_log_metadata_batches
 from vgi_rpc.utils import ArrowSerializableDataclass, ValidatedReader, empty_batch, new_ipc_stream
 
 from .._common import _RpcHttpError
@@ -307,7 +308,7 @@ def _run_stream_init_sync(
                 outcome.error_type = _log_method_error(protocol_name, method_name, server_id, exc)
                 outcome.error_message = _truncate_error_message(exc)
                 outcome.http_status = HTTPStatus.INTERNAL_SERVER_ERROR
-                raise _RpcHttpError(exc, status_code=outcome.http_status) from exc
+                raise _RpcHttpError(exc, status_code=outcome.http_status, logs=sink.buffered_metadata()) from exc
 
             # Mint the stream's call token once, here.  Everything it carries —
             # the call state, both schemas, the stream id — is fixed for the
@@ -727,6 +728,7 @@ def _run_http_exchange_turn(
         outcome.http_status = HTTPStatus.INTERNAL_SERVER_ERROR
         raise _RpcHttpError(exc, status_code=outcome.http_status) from exc
 
+    pending_out: OutputCollector | None = None
     try:
         # Reconcile the inbound batch's schema against the declared
         # input schema (strict on field set, tolerant of order/type).
@@ -758,9 +760,11 @@ def _run_http_exchange_turn(
             kind=app._server.transport_kind,
             implementation=app._server.implementation,
         )
+        pending_out = out
         state.process(ab_in, out, process_ctx)
         if not out.finished:
             out.validate()
+        pending_out = None
 
         # Refresh the cursor token.  The call token is not re-issued: nothing
         # it carries can have changed, and the client still holds it.
@@ -814,7 +818,9 @@ def _run_http_exchange_turn(
         outcome.error_type = _log_method_error(protocol_name, method_name, server_id, exc)
         outcome.error_message = _truncate_error_message(exc)
         outcome.http_status = HTTPStatus.INTERNAL_SERVER_ERROR
-        raise _RpcHttpError(exc, status_code=outcome.http_status, schema=output_schema) from exc
+        raise _RpcHttpError(
+            exc, status_code=outcome.http_status, schema=output_schema, logs=_pending_log_metadata(pending_out)
+        ) from exc
 
 
 def _exchange_error_response(
@@ -1073,6 +1079,7 @@ def _run_http_producer_turn(
                         _write_error_batch(writer, schema, overshoot, server_id=server_id)
                         break
                 cumulative_external_bytes += _flush_collector(writer, out, app._server.external_config)
+                current_out[0] = None
                 if out.finished:
                     break
                 cumulative_bytes = out.total_data_bytes
@@ -1136,6 +1143,10 @@ def _run_http_producer_turn(
             # client that only reads the first stream sees a valid header and
             # no error at all.
             _current_response_status.set(HTTPStatus.INTERNAL_SERVER_ERROR)
+            # Logs the failing step emitted before it raised still belong to
+            # the client (current_out is cleared once a step's collector has
+            # been flushed, so nothing is written twice).
+            _write_log_metadata_batches(writer, schema, _pending_log_metadata(current_out[0]))
             _write_error_batch(writer, schema, exc, server_id=server_id)
     # Close the codec BEFORE getvalue(): the compressed frame is only complete
     # once the stream is finalised.
